@@ -87,7 +87,7 @@ def dof_positions(space, cell, x):
     return out
 
 
-FAMILIES = [("P1", "jj"), ("P1", "flux"), ("P2", "pmw"), ("P2", "flux"), ("DG1", "pmw"), ("vP1", "jj")]
+FAMILIES = [("P1", "jj"), ("P1", "flux"), ("P2", "pmw"), ("P2", "flux"), ("DG1", "pmw"), ("vP1", "jj"), ("P2", "mr"), ("P1", "mr")]
 
 
 def build(item):
@@ -111,6 +111,11 @@ def build(item):
         form = f("-") * inner(dot(avg(grad(u)), n("+")), jump(v)) * dS
     elif kind == "dg0":
         form = inner(jump(u), jump(v)) * dS
+    elif kind == "mr":
+        # several quadrature rules in one interior-facet integral; the rule processed last involves one side only
+        f = ufl.Coefficient(ufl.FunctionSpace(dom, make_element("P1", cell, td)))
+        d = 2 if ek == "P1" else 4
+        form = inner(jump(u), jump(v)) * dS(degree=d) + f("+") * inner(u("+"), v("+")) * dS(degree=d + 1)
     else:
         f = ufl.Coefficient(ufl.FunctionSpace(dom, make_element("P1", cell, td)))
         g = ufl.Coefficient(ufl.FunctionSpace(dom, make_element(ek if ek in ("P1", "P2") else "P1", cell, td)))
@@ -133,9 +138,9 @@ def run(chk):
                 continue
             if quick and cell == "hexahedron" and kind != "jj":
                 continue                          # the exact tensor of a hexahedron flux form costs minutes in TLC
-            if quick and cell == "tetrahedron" and (ek, kind) not in (("P1", "jj"), ("DG1", "pmw")):
+            if quick and cell == "tetrahedron" and (ek, kind) not in (("P1", "jj"), ("DG1", "pmw"), ("P1", "mr")):
                 continue
-            if quick and cell == "quadrilateral" and (ek, kind) not in (("P1", "flux"), ("P2", "pmw"), ("P1", "jj")):
+            if quick and cell == "quadrilateral" and (ek, kind) not in (("P1", "flux"), ("P2", "pmw"), ("P1", "jj"), ("P1", "mr")):
                 continue
             fams.append((cell, ek, kind))
         fams.append((cell, "DG0", "dg0"))
@@ -193,9 +198,10 @@ def run(chk):
         inval = [p for p in allc if p not in canon["valid"]]
         for p in (rnd.sample(inval, min(3, len(inval))) if inval else []):
             ex.append({"ent": canon["f"], "perm": list(p), "x": canon["x"], "w": w0, "c": c0, "oracle": False, "tag": "invalid"})
-        if kind == "dg0":
-            for p in allc:
-                ex.append({"ent": canon["f"], "perm": list(p), "x": canon["x"], "w": w0, "c": c0, "oracle": False, "tag": "anycode"})
+        # every code pair on the canonical configuration: an integral flagged needs_facet_permutations = false
+        # must not depend on the codes at all
+        for p in (allc if (kind == "dg0" or not quick) else rnd.sample(allc, min(len(allc), 8))):
+            ex.append({"ent": canon["f"], "perm": list(p), "x": canon["x"], "w": w0, "c": c0, "oracle": False, "tag": "anycode"})
         pos0 = [[dof_positions(prog.spaces[n], cell, canon["x"][s]) for s in range(2)] for n in prog.coefs]
         for ci, cf in enumerate(P["confs"]):
             # transport the coefficient data by physical dof position
@@ -217,7 +223,7 @@ def run(chk):
     by = {}
     for rc in recs:
         by.setdefault(rc["item"], []).append(rc)
-    ncmp = ninv = ninv_diff = 0
+    ncmp = ninv = ninv_diff = nany = nflagfalse = 0
     dist = set()
     for ii, it in enumerate(items):
         cell, ek, kind = it["fam"]
@@ -244,6 +250,8 @@ def run(chk):
                 ninv_diff += bool(np.max(np.abs(A - Acan)) > 1e-9 * (1 + np.max(np.abs(Acan))))
                 continue
             if m["tag"] == "anycode":
+                nany += 1
+                nflagfalse += m.get("needs_perm") is False
                 if m.get("needs_perm") is False and not np.array_equal(A, Acan):
                     chk.violation(f"{it['label']}:needs_facet_permutations=false-but-depends",
                                   f"{it['label']}: integral flagged needs_facet_permutations = false returns different output for "
@@ -268,7 +276,7 @@ def run(chk):
                               f"{it['label']}: with local numbering {cf['sig']} (facets {cf['f']}) and valid codes {m['perm']} the kernel gives "
                               f"A[{i2}][{j2}] = {g_} but the same physical integral in the canonical numbering is {w_} ({len(bad)} entries differ)",
                               {"item": {k: v for k, v in it.items() if k != "explicit"}, "conf": cf, "perm": m["perm"]})
-    chk.add(renumbered_kernel_runs=ncmp, invalid_code_runs=ninv, invalid_code_runs_that_differ=ninv_diff,
+    chk.add(any_code_runs=nany, any_code_runs_flag_false=nflagfalse, renumbered_kernel_runs=ncmp, invalid_code_runs=ninv, invalid_code_runs_that_differ=ninv_diff,
             distinct_nontrivial=len(dist), traces_validated_against_impl=ncmp,
             rule="one case = (cell, element, form, numbering pair, valid code pair); distinct counted; the canonical exact tensor is non-zero for every family")
     if ncmp < (60 if quick else 1500) or ninv_diff == 0:
